@@ -81,12 +81,13 @@ def dense_protocol(ck, param, what_prefix):
             d.weight.copy_(r0)
         m = torch.nn.Sequential(d, GroupSum(n, device="cpu"))
         m.eval()
-        # prime everything that might cache: reported ids, eval forward, a compiled net, a training forward
+        # prime everything that might cache: a training forward, reported ids, a compiled net and - last, with no mode switch
+        # after it - an eval forward
+        m.train(); m(x); m.eval()
         d.get_gate_ids()
+        compiled.build(m, 8).get_c_code()
         with torch.no_grad():
             m(x)
-        compiled.build(m, 8).get_c_code()
-        m.train(); m(x); m.eval()
         for rnd in range(2):
             gl, rows = _new_rows(rng, n, param)
             apply_update(rng, d, d.weight, rows, how)
@@ -127,10 +128,10 @@ def conv_protocol(ck, param, what_prefix):
         model.eval()
         rows_in = nets.all_rows(6)
         x = torch.tensor(rows_in, dtype=torch.float32).reshape(len(rows_in), 1, 2, 3)
+        model.train(); model(x); model.eval()
+        compiled.build(model, 8).get_c_code()
         with torch.no_grad():
             model(x)
-        compiled.build(model, 8).get_c_code()
-        model.train(); model(x); model.eval()
         w = conv.tree_weights[0][0]
         gl, rows = _new_rows(rng, w.shape[0], param)
         apply_update(rng, conv, w, rows, how)
